@@ -156,6 +156,12 @@ pub fn system_family(tier: Tier, divrem: bool) -> Vec<SysSpec> {
     out
 }
 
+/// skeleton (or hand-built shape) a spec was derived from: "K3", "hand:swap"
+pub fn skeleton_of(sp: &SysSpec) -> String {
+    let base_name: String = sp.name.split('-').next().unwrap_or("").to_string();
+    if SKELETONS.contains(&base_name.as_str()) { base_name } else { format!("hand:{base_name}") }
+}
+
 /// which slots of the skeleton's default system this spec deviates in ("K3/bad0+next1")
 pub fn sys_class(sp: &SysSpec) -> String {
     let base_name: String = sp.name.split('-').next().unwrap_or("").to_string();
@@ -178,21 +184,20 @@ pub fn sys_class(sp: &SysSpec) -> String {
             d.push(format!("next{i}"));
         }
     }
-    let n = base.bads.len().max(sp.bads.len());
-    for i in 0..n {
-        if base.bads.get(i) != sp.bads.get(i) {
+    // roots that are present and differ from the default's (absent roots do not count: a
+    // minimised system has only the roots the failure needs)
+    for i in 0..sp.bads.len() {
+        if base.bads.get(i) != Some(&sp.bads[i]) {
             d.push(format!("bad{i}"));
         }
     }
-    let n = base.constraints.len().max(sp.constraints.len());
-    for i in 0..n {
-        if base.constraints.get(i) != sp.constraints.get(i) {
+    for i in 0..sp.constraints.len() {
+        if base.constraints.get(i) != Some(&sp.constraints[i]) {
             d.push(format!("constraint{i}"));
         }
     }
-    let n = base.outputs.len().max(sp.outputs.len());
-    for i in 0..n {
-        if base.outputs.get(i) != sp.outputs.get(i) {
+    for i in 0..sp.outputs.len() {
+        if base.outputs.get(i) != Some(&sp.outputs[i]) {
             d.push(format!("output{i}"));
         }
     }
@@ -546,4 +551,30 @@ pub fn shrink_spec(sp: &SysSpec, fails: &dyn Fn(&SysSpec) -> bool) -> SysSpec {
         }
     }
     cur
+}
+
+/// Collects, per pre-signature, the failing case with the smallest enumeration order; the
+/// (expensive) minimisation runs afterwards on exactly those cases, so the reported cases do not
+/// depend on thread timing.
+pub struct Collector<C>(std::sync::Mutex<std::collections::BTreeMap<String, (u64, C)>>);
+
+impl<C> Default for Collector<C> {
+    fn default() -> Self {
+        Collector(std::sync::Mutex::new(std::collections::BTreeMap::new()))
+    }
+}
+
+impl<C> Collector<C> {
+    pub fn offer(&self, presig: &str, order: u64, make: impl FnOnce() -> C) {
+        let mut g = self.0.lock().unwrap();
+        match g.get(presig) {
+            Some((o, _)) if *o <= order => {}
+            _ => {
+                g.insert(presig.to_string(), (order, make()));
+            }
+        }
+    }
+    pub fn drain(self) -> Vec<(u64, C)> {
+        self.0.into_inner().unwrap().into_values().collect()
+    }
 }
